@@ -50,6 +50,9 @@ const (
 	// WaitTimeoutCheckInterval set interval in which wait condition is checked.
 	WaitTimeoutCheckInterval = 200 * time.Millisecond
 
+	// ResponsePreallocLimit is the maximum number of bytes allocated up front for a response of announced size.
+	ResponsePreallocLimit = 16 * 1024 * 1024
+
 	// ErrorContentPreviewSize sets the number of bytes from the response to include in the error message.
 	ErrorContentPreviewSize = 50
 
@@ -1285,7 +1288,8 @@ func (p *Peer) parseResponseFixedSize(req *Request, conn io.ReadCloser) ([]byte,
 
 		return nil, err
 	}
-	body := bytes.NewBuffer(make([]byte, 0, expSize))
+	// the announced size is only a hint for the allocation: the buffer grows with the bytes that really arrive
+	body := bytes.NewBuffer(make([]byte, 0, min(expSize, ResponsePreallocLimit)))
 	_, err = io.CopyN(body, conn, expSize)
 	if err != nil && errors.Is(err, io.EOF) {
 		err = nil
